@@ -2025,6 +2025,33 @@ theorem docWeight_eq (d : Doc) (out : Out) (t : Totals) (hcalc : calculate exact
   rw [hcalc]
   simp only [ht]
 
+theorem roundDocAdj_shows (c : ℕ) (x : DocAdj) : Shows (roundDocAdj exactOps c x).amount x.amount := by
+  unfold roundDocAdj
+  exact down_shows _ _
+
+/-- the document discount and charge rows of a calculated document of the class `DocA` -/
+theorem adj_rows_shown (d : Doc) (out : Out) (t : Totals) (hd : DocA d)
+    (hcalc : calculate exactOps d = .ok out) (ht : out.totals = some t) :
+    List.Forall₂ (fun x xo => ∃ w : Amount, Shows xo.amount w ∧
+        |w.toRat - Spec.C01.docAdjQ (Spec.C01.exactQ d).sum x| ≤ (1 + (sumW d.lines : ℚ)) * halfUlp (d.c + 2))
+      d.discounts out.discounts ∧
+    List.Forall₂ (fun x xo => ∃ w : Amount, Shows xo.amount w ∧
+        |w.toRat - Spec.C01.docAdjQ (Spec.C01.exactQ d).sum x| ≤ (1 + (sumW d.lines : ℚ)) * halfUlp (d.c + 2))
+      d.charges out.charges := by
+  obtain ⟨p, tx, hpre, _, hout, _⟩ := calculate_unpack d out t hcalc ht
+  obtain ⟨_, _, hsexp, hS, hdis, hch, _, _, _⟩ := pre_spec d p hd hpre
+  rw [hout]
+  simp only [finish, hdis, hch]
+  refine ⟨?_, ?_⟩
+  · rw [List.forall₂_map_right_iff, List.forall₂_map_right_iff]
+    apply List.forall₂_same.mpr
+    intro x hx
+    exact ⟨_, roundDocAdj_shows d.c _, docAdj_err d.c p.sum _ _ x (hd.discounts x hx) hsexp hS⟩
+  · rw [List.forall₂_map_right_iff, List.forall₂_map_right_iff]
+    apply List.forall₂_same.mpr
+    intro x hx
+    exact ⟨_, roundDocAdj_shows d.c _, docAdj_err d.c p.sum _ _ x (hd.charges x hx) hsexp hS⟩
+
 end Err
 end Calc
 end GoblVerif
